@@ -959,6 +959,19 @@ def run(P, rep, tier):
     r0512(P, u, E, rep)
     r0514(P, u, E, rep)
     r0516(P, rep)
+    r0517(P, rep, tier)
+
+
+def r0517(P, rep, tier):
+    """an automatic compound literal is ND_COMMA(initialising assignments, variable); used as an lvalue (`&(T){...}`, `(T){...}.m`) it is lowered by
+    gen_addr: the initialising expressions are evaluated for their side effects only and must leave nothing behind - the value of a long double
+    member assignment stays on the x87 stack otherwise and the 8th evaluation stores NaN. C20's gen_addr effect rule, re-used"""
+    from ..report import Report, reissue
+    from . import c20
+    rep.rule('R05.17', 'the initialising assignments of a compound literal used as an lvalue are evaluated for their side effects only: gen_addr of ND_COMMA (and every other gen_addr arm) leaves the machine stack and the x87 stack as it found them (same obligations as C20 R20.7)', floor=5)
+    sub = Report('C20')
+    c20.run(P, sub, tier)
+    reissue(rep, 'R05.17', sub, 'a long double member of a compound literal would be initialised with NaN after a few evaluations: ', keep=lambda o: o['key'].startswith('R20.7:'))
 
 
 def r0516(P, rep):
